@@ -6,6 +6,7 @@ import (
 	"os"
 	"path/filepath"
 	"strings"
+	"sync/atomic"
 	"time"
 
 	"github.com/btcsuite/btcd/database"
@@ -40,7 +41,7 @@ func (w *world) bucketAt(tx database.Tx, p tla.Value) (database.Bucket, error) {
 // replayPath drives a fresh database along the path and compares after every
 // step.  It stops at the first step with a divergence (later comparisons
 // would only repeat it).
-func (r *runner) replayPath(g *graph, path []int32, scratch string) (out outcome) {
+func (r *runner) replayPath(g *graph, path []int32, scratch string, progress *int64) (out outcome) {
 	w := &world{r: r, cc: r.cc, root: scratch, txs: map[string]database.Tx{}, curs: map[string]*curState{}, crashAfter: -1, reported: map[string]bool{}}
 	defer func() {
 		out.evals = w.evals
@@ -61,6 +62,7 @@ func (r *runner) replayPath(g *graph, path []int32, scratch string) (out outcome
 	}
 	var prevObs tla.Value
 	for i := 0; i < len(path); i++ {
+		atomic.StoreInt64(progress, int64(i))
 		n := g.nodes[path[i]]
 		l := n.Last()
 		act := l.F("a").Str()
